@@ -5,7 +5,7 @@
 # the existing tests of ./pkg/... still pass with the patch (demo excluded).
 set -u
 PID=$1; VAR=${2:-}
-SRC=/tmp/seed/$PID$VAR/SEED
+SRC=${SRCDIR:-/tmp/seed/$PID$VAR/SEED}
 DST=/verif/seeded/$PID$VAR
 WT=/root/scratch/harvest_$PID$VAR
 export GOFLAGS=-mod=mod GOPROXY=off GOSUMDB=off GOTOOLCHAIN=local
